@@ -328,8 +328,10 @@ def sx_len(x):
 
 def sx_divmod(a, b):
     if isinstance(a, (SInt, SNum)) or isinstance(b, (SInt, SNum)):
-        if isinstance(b, (SInt, SNum)) and not isinstance(a, (SInt, SNum)):
-            a = SNum(z3.IntVal(a))
+        if isinstance(b, SNum):
+            b = concretize(b)        # symbolic divisor: follow every feasible value (keeps the arithmetic linear)
+        if not isinstance(a, (SInt, SNum)):
+            return builtins.divmod(a, b)
         return a // b, a % b
     return builtins.divmod(a, b)
 
